@@ -4,7 +4,7 @@
 From Coq Require Import NArith ZArith List Bool.
 Import ListNotations.
 Require Import UV.Gen.Consts UV.Mcount.Model UV.Mcount.Forest UV.Mcount.PlainStep UV.Mcount.PlainProofs
-  UV.Mcount.Codec UV.Mcount.PlainMore UV.Mcount.Overflow UV.Mcount.Embed UV.Mcount.EmbedMore UV.Mcount.Check.
+  UV.Mcount.Codec UV.Mcount.PlainMore UV.Mcount.Overflow UV.Mcount.Embed UV.Mcount.EmbedMore UV.Mcount.Check UV.Mcount.Monotone.
 Local Open Scope N_scope.
 
 (* Writer and readers agree on the record word: the hand-packed word of record_ret_stack decodes,
@@ -101,3 +101,18 @@ Theorem C02_subhistory_checker_exact : forall f l,
   ok_emb f l = true <-> exists g, emb g f /\ l = map ideal (flat_map (history 0) g).
 Proof. exact ok_emb_exact. Qed.
 Print Assumptions C02_subhistory_checker_exact.
+
+(* Records are never rewritten: for EVERY configuration, shape, state and history (no hypothesis), the stream after
+   a prefix of the events is a list prefix of the stream after more events. *)
+Theorem C02_stream_append_only : forall c p q d, no_fork q ->
+  exists l, out (fst (exec c (p ++ q) d)) = out (fst (exec c p d)) ++ l.
+Proof. exact stream_append_only. Qed.
+Print Assumptions C02_stream_append_only.
+
+(* ... so at any instant of the run - wherever a crash or kill stops the thread - what has been written is a
+   prefix of the flattening of a forest embedded in the call history (switch-free option sets). *)
+Theorem C02_stream_at_any_instant : forall c, no_switch c -> forall f, all_ended f -> heights f <= max_stack c ->
+  forall p q, flat_forest f = p ++ q ->
+  exists g l, emb g f /\ out (fst (exec c p (init, []))) ++ l = flat_map (history 0) g.
+Proof. exact stream_at_any_instant. Qed.
+Print Assumptions C02_stream_at_any_instant.
